@@ -20,7 +20,10 @@ META = dict(
               "decided by polynomial normalisation); B: primitive normalisation for every Cartesian power triple with "
               "l <= 4 and all real exponents > 0; C: Cartesian-to-pure tables l <= 7 against exact algebraic values "
               "(4 ulp); D1: real compute_overlap on one centre, one one-primitive shell l <= 2 (Cartesian) / l = 2 (pure) with "
-              "a symbolic exponent: unit diagonal, symmetry, pure shell orthonormal; D2: two centres with symbolic "
+              "a symbolic exponent: unit diagonal, symmetry, pure shell orthonormal; D1b: two shells of different type on one "
+              "centre at any position (symbolic coordinates; exponents 0.8 / 1.7), single-basis and two-basis form: every "
+              "element of the block against the closed formula, pairs s|d, p|f, 5d|6d, 5d|15g, 6d|9g, 5d|9g, 7f|21h, 7f|10f "
+              "(thorough up to l = 7); D2: two centres with symbolic "
               "coordinates (s/p shells, rational exponents, symbolic contraction coefficients, exp as an uninterpreted "
               "function): symmetry, transposition under exchange of the bases, invariance under a common translation, "
               "row/column permutation under a change of conventions, zero block exactly when screened; rejection of L1 "
@@ -324,6 +327,72 @@ def h_reject(ctx):
     ctx.oblige("unsupported-input-rejected", rejected, cls=case)
 
 
+def _ref_block(l1, k1, a, l2, k2, b):
+    """<f_i|g_j> for two normalised one-primitive shells (exponents a, b) on one centre, from the closed formulas:
+    int x^n exp(-(a+b) x^2) dx = (n-1)!! / (2(a+b))^(n/2) sqrt(pi/(a+b)) for even n; N = (2a/pi)^(3/4) sqrt((4a)^l / prod (2n_d-1)!!)."""
+    def carts(l):
+        return [(nx, ny, l - nx - ny) for nx in range(l, -1, -1) for ny in range(l - nx, -1, -1)]
+
+    def norm(alpha, pw):
+        return (2 * alpha / math.pi) ** 0.75 * math.sqrt((4 * alpha) ** sum(pw) / math.prod(dfact(2 * n - 1) for n in pw))
+
+    def scc(p, q):
+        if any((x + y) % 2 for x, y in zip(p, q)):
+            return 0.0
+        val = norm(a, p) * norm(b, q) * (math.pi / (a + b)) ** 1.5
+        for x, y in zip(p, q):
+            val *= dfact(x + y - 1) / (2 * (a + b)) ** ((x + y) // 2)
+        return val
+
+    def tmat(l, kind):
+        c = carts(l)
+        if kind == "c":
+            return [[1.0 if i == j else 0.0 for j in range(len(c))] for i in range(len(c))]
+        labels = ["c0"] + [f"{cs}{m}" for m in range(1, l + 1) for cs in "cs"]
+        return [[HR.cart_to_pure_entry_sq(l, lab, pw)[0] * math.sqrt(float(HR.cart_to_pure_entry_sq(l, lab, pw)[1])) for pw in c]
+                for lab in labels]
+    c1, c2 = carts(l1), carts(l2)
+    s = [[scc(p, q) for q in c2] for p in c1]
+    t1, t2 = tmat(l1, k1), tmat(l2, k2)
+    return [[sum(t1[i][x] * s[x][y] * t2[j][y] for x in range(len(c1)) for y in range(len(c2))) for j in range(len(t2))]
+            for i in range(len(t1))]
+
+
+def h_same_center_pair(ctx, l1=2, k1="p", l2=4, k2="c", two_bases=False, twin=False):
+    """Two shells of different type on one centre anywhere in space (or on coincident centres of two bases): every element
+    of the block against the closed formula (exponents from a grid; the position of the centre is symbolic)."""
+    import iodata.attrutils as A
+    import iodata.basis as B
+    import iodata.convert as C
+    import iodata.overlap as OV
+    a, b = 0.8, 1.7
+    r = ctx.real_array("R", (1, 3), lo=-50, hi=50)
+    with stubbed(OV, C, B, A):
+        sh1 = B.Shell(0, [l1], [k1], [a], [[1.0]])
+        sh2 = B.Shell(0, [l2], [k2], [b], [[1.0]])
+        if two_bases:
+            ob1 = B.MolecularBasis([sh1], C.HORTON2_CONVENTIONS, "L2")
+            ob2 = B.MolecularBasis([sh2], C.HORTON2_CONVENTIONS, "L2")
+            blk = OV.compute_overlap(ob1, r, ob2, r.copy())
+        else:
+            ob = B.MolecularBasis([sh1, sh2], C.HORTON2_CONVENTIONS, "L2")
+            olp = OV.compute_overlap(ob, r)
+            n1 = sh1.nbasis
+            blk = olp[:n1, n1:]
+    ref = _ref_block(l1, k1, a, l2, k2, b)
+    cls = f"{l1}{k1}|{l2}{k2},two_bases={two_bases}"
+    ctx.oblige("block-shape", blk.shape == (len(ref), len(ref[0])), cls=cls, detail=str(blk.shape))
+    parts = []
+    for i, row in enumerate(ref):
+        for j, v in enumerate(row):
+            want = v + (0.5 if twin and i == 0 and j == 0 else 0.0)
+            g = blk[i, j]
+            parts.append(ctx.near(g, want, 1e-9) if isinstance(g, Sym) else abs(float(g) - want) < 1e-9)
+    bad = [k for k, x in enumerate(parts) if x is False]
+    ctx.oblige("same-centre-block-is-the-exact-inner-product", And(*[x for x in parts if x is not True]) if not bad else False, cls=cls,
+               detail=f"first differing element {divmod(bad[0], len(ref[0]))}" if bad else "", timeout_ms=60000)
+
+
 def jobs(tier):
     M = "harness.c06"
     out = []
@@ -341,6 +410,17 @@ def jobs(tier):
         out.append(job("C06", f"single-center[{l}c]", M, "h_single_center", dict(l=l, kind="c"), budget_s=600))
     for l in range(2, lm + 1):
         out.append(job("C06", f"single-center[{l}p]", M, "h_single_center", dict(l=l, kind="p"), budget_s=600))
+    pairs = [(0, "c", 2, "c"), (1, "c", 3, "c"), (2, "p", 2, "c"), (2, "p", 4, "c"), (2, "c", 4, "p"), (2, "p", 4, "p"), (3, "p", 5, "c"), (3, "p", 3, "c")]
+    if tier == "thorough":
+        pairs += [(2, "p", 6, "c"), (4, "p", 6, "c"), (3, "p", 7, "c"), (5, "p", 7, "c"), (0, "c", 4, "c"), (1, "c", 5, "p"), (4, "p", 4, "c")]
+    for l1, k1, l2, k2 in pairs:
+        for tb in (False, True):
+            if tb and tier == "quick" and (l1, l2) not in ((2, 4), (3, 5)):
+                continue
+            out.append(job("C06", f"same-centre-pair[{l1}{k1}|{l2}{k2},two_bases={int(tb)}]", M, "h_same_center_pair",
+                           dict(l1=l1, k1=k1, l2=l2, k2=k2, two_bases=tb), budget_s=600, max_validate=2, oblige_timeout_ms=60000))
+    out.append(job("C06", "same-centre-pair[twin]", M, "h_same_center_pair", dict(l1=0, k1="c", l2=2, k2="c", twin=True), expect="cex",
+                   max_validate=0))
     out.append(job("C06", "single-center[twin]", M, "h_single_center", dict(l=1, kind="c", twin=True), expect="cex"))
     for spec in ("small", "gen"):
         for prop in ("symmetric", "transpose", "translate", "conventions"):
